@@ -11,7 +11,9 @@ sys.path.insert(0, VERIF)
 from harness.lib.framework import load_prop  # noqa: E402
 
 ids = [json.loads(l)["id"] for l in open(os.path.join(VERIF, "properties.jsonl"))]
-claimed = sorted(os.path.basename(f)[:-3].upper() for f in glob.glob(os.path.join(VERIF, "harness/props/c[0-9]*.py")))
+present = sorted(os.path.basename(f)[:-3].upper() for f in glob.glob(os.path.join(VERIF, "harness/props/c[0-9]*.py")))
+# only properties the coordinator has reviewed and seen quiet on the unchanged tree are claimed
+claimed = [i for i in json.load(open(os.path.join(VERIF, "tools/claimed.json"))) if i in present]
 unclaimed = json.load(open(os.path.join(VERIF, "tools/unclaimed.json")))
 checks = []
 for pid in claimed:
